@@ -461,6 +461,22 @@ func init() {
 		return c17NamesFile("OptionalZeroDimension", "/repo/css/table.go (optionalZeroDimension)",
 			"`css.optionalZeroDimension`: units dropped from a zero dimension (keys mapped to `true`)", keys), nil
 	})
+	gen("ZeroAngleFuncs", func(r *Repo) (string, error) {
+		keys, err := c17BoolSet(r, "css", "zeroAngleFuncs", false)
+		if err != nil {
+			return "", err
+		}
+		return c17NamesFile("ZeroAngleFuncs", "/repo/css/css.go (zeroAngleFuncs)",
+			"`css.zeroAngleFuncs`: functions inside which a zero angle loses its unit (keys mapped to `true`)", keys), nil
+	})
+	gen("AngleDimension", func(r *Repo) (string, error) {
+		keys, err := c17BoolSet(r, "css", "angleDimension", false)
+		if err != nil {
+			return "", err
+		}
+		return c17NamesFile("AngleDimension", "/repo/css/css.go (angleDimension)",
+			"`css.angleDimension`: units whose zero keeps the unit outside `zeroAngleFuncs` (keys mapped to `true`)", keys), nil
+	})
 	gen("SvgColorAttrs", func(r *Repo) (string, error) {
 		keys, err := c17BoolSet(r, "svg", "colorAttrMap", true)
 		if err != nil {
